@@ -128,7 +128,7 @@ def gen_chart(rng, game, keys=None, n=None, style=None, n_bpm=None, empty_p=0.12
                           background_file=rng.choice(["bg.png", ""]), song_preview_time=rng.choice([0, 1234]),
                           mode={4: "Keys4", 7: "Keys7", 8: "Keys8"}.get(keys, "Keys4"), tags=rng.choice([[], ["x", "y"]]),
                           source=rng.choice(ASCII_TEXTS), description=rng.choice(ASCII_TEXTS),
-                          initial_scroll_velocity=rng.choice(["", "", 1.0, 0.5, 2.0]))  # a header field: not a scroll-velocity point
+                          initial_scroll_velocity=rng.choice(["", "", 1.0, 0.5, 2.0]), genre=rng.choice(["", "", "Trance", "Drum & Bass"]))  # a header field: not a scroll-velocity point
     elif game == "bms":
         ids = [b"01", b"02", b"0A", b"ZY", b"1F"]
         ch["hit_x"] = [[rng.choice([b"", b"", b"hit.wav", b"k.ogg"])] for _ in hits]
@@ -179,7 +179,7 @@ def gen_spec(rng, game=None, **kw):
             spec["meta"] = dict(title=rng.choice(TEXTS), artist=rng.choice(TEXTS), credit=rng.choice(ASCII_TEXTS),
                                 title_translit=rng.choice(ASCII_TEXTS), artist_translit=rng.choice(ASCII_TEXTS), music=rng.choice(["a.ogg", "song.mp3"]),
                                 background=rng.choice(["bg.png", ""]), offset=float(first["bpms"][0][0]),
-                                sample_start=rng.choice([0.0, 12500.0]), sample_length=rng.choice([10.0, 15500.0]))
+                                sample_start=rng.choice([0.0, 12500.0, -1.0, -2500.0]), sample_length=rng.choice([10.0, 15500.0]))
         else:
             spec["meta"] = dict(title=rng.choice(TEXTS), artist=rng.choice(TEXTS), creator=rng.choice(ASCII_TEXTS),
                                 bpm=float(first["bpms"][0][1]), level=[rng.randint(1, 30) for _ in range(4)], genre=rng.randrange(11),
